@@ -25,10 +25,36 @@ def plan(ctx):
     n = ctx.n(2000, 40000)
     items = [('miri', 0)]
     items += [('fuzz', engine.stable_hash((ctx.seed, 'c03', i))) for i in range(n)]
+    items += [('huge', engine.stable_hash((ctx.seed, 'c03h', i))) for i in range(ctx.n(8, 120))]
     if ctx.tier == 'thorough':
         items += [('asan', engine.stable_hash((ctx.seed, 'c03a', i))) for i in range(ctx.n(0, 1500))]
         items += [('valgrind', engine.stable_hash((ctx.seed, 'c03v', i))) for i in range(ctx.n(0, 40))]
     return items
+
+
+PARENTS = {
+    'blame': [['git', 'blame', 'src/f.rs'], ['git', 'blame', '-f', 'Makefile'], ['git', 'blame', 'a.unknownext']],
+    'grep-plain': [['git', 'grep', '-n', 'x'], ['git', 'grep', 'x'], ['rg', '-n', 'x'], ['git', 'grep', '-n', '-p', 'x'], ['git', 'grep', '-W', 'x'],
+                   ['git', 'grep', '--show-function', '-n', 'x'], ['grep', '-rn', 'x', '.'], ['ag', 'x'], ['ack', 'x']],
+    'grep-color': [['git', 'grep', '-n', 'x'], ['git', 'grep', '-n', '-p', 'x'], ['git', 'grep', '-n', '-W', 'x'], ['git', 'grep', 'x']],
+    'rg-json': [['rg', '--json', 'x'], ['git', 'grep', 'x']],
+    'text': [['git', 'show', 'HEAD:src/x.rs'], ['git', 'show', 'HEAD~1:Makefile'], ['git', 'show', 'abc123:'], ['git', 'grep', '-n', 'x']],
+    'git-diff': [['git', 'diff', '--word-diff'], ['git', 'diff', '--color-words'], ['git', 'diff', '--word-diff-regex=.'], ['git', 'log', '-p'],
+                 ['git', 'diff', '--relative'], ['git', 'show'], ['git', 'stash', 'show', '-p'], ['git', 'reflog', '-p'], ['git', 'add', '-p']],
+    'log-p': [['git', 'log', '-p', '--stat'], ['git', 'show', '--word-diff'], ['git', 'log', '--graph', '-p']],
+    'combined': [['git', 'show', 'HEAD'], ['git', 'diff', '--cc']],
+}
+
+
+def choose_parent(rng, kind):
+    """The calling process decides which handlers are reachable (grep, blame extension, git show REV:file, word-diff)."""
+    r = rng.random()
+    base = kind.split(':')[0].replace('-colored', '')
+    if base in PARENTS and r < 0.6:
+        return rng.choice(PARENTS[base])
+    if r < 0.7:
+        return rng.choice(rng.choice(sorted(PARENTS.values())))
+    return None
 
 
 def base_input(rng):
@@ -150,6 +176,8 @@ def run_item(item):
         return run_miri()
     if kind0 in ('asan', 'valgrind'):
         return run_sanitized(kind0, seed)
+    if kind0 == 'huge':
+        return run_huge(seed)
     rng = engine.item_rng(seed)
     opts, cls = gen.hostile_options(rng)
     args = gen.to_args(opts)
@@ -164,24 +192,73 @@ def run_item(item):
     outs = []
     for j in range(INPUTS_PER_ITEM):
         kind, data = base_input(rng)
+        if rng.random() < 0.08:
+            # two inputs of different kinds back to back (state carried from one construct kind into another)
+            kind2, data2 = base_input(rng)
+            kind, data = kind + '+' + kind2, data + data2
         nm = 0
         if rng.random() < 0.75:
             data = corpus.mutate(rng, data)
             nm = 1
-        outs.append(check_one(args, data, mode, size, kind, cls, nm))
+        parent = choose_parent(rng, kind)
+        env = {}
+        if rng.random() < 0.15:
+            env['GIT_PREFIX'] = rng.choice(['src/', 'a/b/', '../', '/', ''])
+        if rng.random() < 0.1:
+            env['COLUMNS'] = rng.choice(['0', '1', '7', '100000', 'x', '-3'])
+        if rng.random() < 0.05:
+            env['DELTA_FEATURES'] = rng.choice(['+side-by-side', 'line-numbers decorations', '+', 'nonexistent', '+navigate raw'])
+        outs.append(check_one(args, data, mode, size, kind, cls, nm, parent=parent, env=env, trace=rng.random() < 0.1))
     if crashmod.classify(acc) is not None:
         outs.append(check_one(args, b'', mode, size, 'empty', cls, 0))
     return outs
 
 
-def check_one(args, data, mode, size, kind, cls, mutated, variant='hooks'):
-    res = runner.run_delta(args, data, mode=mode, pty_size=size, timeout=20, variant=variant)
-    sets = {'input_kinds': [kind], 'option_classes': cls, 'mode': [mode]}
+def run_huge(seed):
+    """Enormous lines and hunks: must terminate, with memory in proportion."""
+    rng = engine.item_rng(seed)
+    opts, cls = gen.hostile_options(rng)
+    for k in ('--max-line-length', '--wrap-max-lines'):
+        opts.pop(k, None)
+    shape = rng.choice(['line-1MB', 'line-1MB-wide', 'hunk-100k', 'hunk-100k-plus-only', 'many-files', 'blame-50k', 'grep-50k', 'text-200k'])
+    unit = rng.choice(['x', 'ab ', '\t', '日本', 'e\u0301', '\x1b[31mq\x1b[m', '😀'])
+    head = 'diff --git a/f.rs b/f.rs\n--- a/f.rs\n+++ b/f.rs\n'
+    parent = None
+    if shape.startswith('line-1MB'):
+        n = (1 << 20) // len(unit.encode())
+        body = '@@ -1,2 +1,2 @@\n-%s\n+%sz\n ctx\n' % (unit * n, unit * n)
+        if shape.endswith('wide'):
+            opts['--side-by-side'] = True
+        text = head + body
+    elif shape == 'hunk-100k':
+        text = head + '@@ -1,100000 +1,100000 @@\n' + ''.join(' c%d\n-m%d\n+p%d\n' % (i, i, i) for i in range(34000))
+    elif shape == 'hunk-100k-plus-only':
+        text = head + '@@ -0,0 +1,100000 @@\n' + ''.join('+p%d %s\n' % (i, unit) for i in range(100000))
+    elif shape == 'many-files':
+        text = ''.join('diff --git a/f%d.rs b/f%d.rs\n--- a/f%d.rs\n+++ b/f%d.rs\n@@ -1 +1 @@\n-a\n+b\n' % (i, i, i, i) for i in range(8000))
+    elif shape == 'blame-50k':
+        text = ''.join('%08x (Ann 2020-01-01 00:00:00 +0000 %d) code %d\n' % (i % 97 + 0x10000000, i + 1, i) for i in range(50000))
+        parent = ['git', 'blame', 'f.rs']
+    elif shape == 'grep-50k':
+        text = ''.join('src/f%d.rs:%d:fn f%d() {}\n' % (i % 50, i + 1, i) for i in range(50000))
+        parent = ['git', 'grep', '-n', 'fn']
+    else:
+        text = ''.join('plain text line %d %s\n' % (i, unit) for i in range(200000))
+    o = check_one(gen.to_args(opts), text.encode('utf-8'), 'pipe', (24, 80), 'huge:' + shape, cls, 0, parent=parent, timeout=240)
+    o.setdefault('counters', {})['huge_inputs'] = 1
+    return [o]
+
+
+def check_one(args, data, mode, size, kind, cls, mutated, variant='hooks', parent=None, env=None, trace=False, timeout=20):
+    kw = {'parent_argv': parent} if parent else {}
+    res = runner.run_delta(args, data, mode=mode, pty_size=size, timeout=timeout, variant=variant, env=env or None, trace=trace, **kw)
+    sets = {'input_kinds': [kind.split('+')[0]], 'option_classes': cls, 'mode': [mode], 'calling_process': [' '.join(parent[:3]) if parent else 'none'],
+            'env': sorted(env or {})}
     counters = {'input_bytes': len(data), 'mutated': mutated}
     c = crashmod.classify(res)
     if c is not None and c['kind'] == 'timeout':
         if len(data) < 200000:
-            res2 = runner.run_delta(args, data, mode=mode, pty_size=size, timeout=60, variant=variant)
+            res2 = runner.run_delta(args, data, mode=mode, pty_size=size, timeout=max(60, 3 * timeout), variant=variant, env=env or None, **kw)
             c2 = crashmod.classify(res2)
             if c2 is not None and c2['kind'] == 'timeout':
                 return violated('hang', 'no termination within 60 s on an input of %d bytes' % len(data), run=res2,
@@ -192,6 +269,11 @@ def check_one(args, data, mode, size, kind, cls, mutated, variant='hooks'):
     if c is not None:
         return violated(c['signature'], 'crash: ' + c['detail'], run=res, counters=counters, sets=sets,
                         extra={'input_kind': kind})
+    if res.rc == 2 and res.err.strip() and b'panicked' not in res.err and len(res.err) < 400:
+        # a value that delta validates only when the option is first used (grep/blame styles, wrap settings): the option
+        # set is not one "that delta accepts"; the rejection is clean (message + status 2)
+        return inconclusive('option set rejected when first used (clean exit 2)', counters=counters,
+                            sets=dict(sets, rejected_option=[res.err.decode('utf-8', 'replace').strip().split('\n')[0][:80]]))
     if res.rc != 0:
         return violated('exit:%d:%s' % (res.rc, crashmod.normalise_message(res.err.decode('utf-8', 'replace').strip().split('\n')[0] if res.err.strip() else '')),
                         'non-zero exit status %d in stdin mode: %s' % (res.rc, res.err[:200]), run=res,
@@ -199,7 +281,16 @@ def check_one(args, data, mode, size, kind, cls, mutated, variant='hooks'):
     if not res.stdin_accepted:
         return violated('stdin-not-consumed', 'delta exited 0 without consuming its whole input', run=res,
                         counters=counters, sets=sets)
-    if res.maxrss_kb and res.maxrss_kb * 1024 > 64 * (len(data) + (64 << 20)):
+    if trace and res.trace is not None:
+        # hook 1 records every line the state machine ingests: the whole input must have gone through it
+        nl = len(data.split(b'\n')) - (1 if data.endswith(b'\n') or not data else 0)
+        seen = sum(1 for t in res.trace if t.startswith('line '))
+        ended = any(t.startswith('end ') for t in res.trace)
+        counters['ingest_traces'] = 1
+        if res.trace and (seen != nl or not ended):
+            return violated('input-not-fully-ingested', 'the state machine handled %d of %d input lines (end record: %s) although delta exited 0' % (seen, nl, ended),
+                            nl, seen, run=res, counters=counters, sets=sets)
+    if res.maxrss_kb and res.maxrss_kb * 1024 > (256 << 20) + 64 * len(data):
         return violated('runaway-allocation', 'peak RSS %d KB for %d input bytes' % (res.maxrss_kb, len(data)),
                         run=res, counters=counters, sets=sets)
     if b'panicked at' in res.err:
@@ -216,4 +307,10 @@ def floors(ctx, agg):
     p = []
     if len(agg.sets.get('input_kinds', ())) < 10:
         p.append('fewer than 10 input kinds exercised')
+    if len(agg.sets.get('calling_process', ())) < 12:
+        p.append('fewer than 12 calling processes exercised')
+    if agg.counters.get('ingest_traces', 0) < 100:
+        p.append('fewer than 100 runs whose hook trace was compared with the input line count')
+    if agg.counters.get('huge_inputs', 0) < 4:
+        p.append('fewer than 4 huge inputs')
     return p
